@@ -34,14 +34,15 @@ type lifeSc struct {
 	Second    string   // "" | "idle" | "busy": call Connect again while connected
 	Pass      string
 	Procs     string
+	ConnectTo bool // use ConnectTo / ConnectToContext (which set Config.Server and Config.Pass) instead of Connect
 	FloodOn   bool // flood protection on (cfg.Flood=false): lines get rate-limited, the sender sleeps inside write
 	NoJoin    bool // tracked sessions normally join #life after the welcome; the JOIN handler calls Me(), which hides a nil Config().Me
 }
 
 func (sc lifeSc) String() string {
-	return fmt.Sprintf("track=%v ping=%dms ctxdial=%v usectx=%v cycles=%d in=%d/%s out=%d/%s/%d server=%s handler=%s late=%v causes=%s reconnect=%s welcome=%q second=%q procs=%s nojoin=%v floodprotection=%v",
+	return fmt.Sprintf("track=%v ping=%dms ctxdial=%v usectx=%v cycles=%d in=%d/%s out=%d/%s/%d server=%s handler=%s late=%v causes=%s reconnect=%s welcome=%q second=%q procs=%s nojoin=%v floodprotection=%v connectto=%v",
 		sc.Tracking, sc.PingMs, sc.CtxAware, sc.UseCtx, sc.Cycles, sc.Inbound, sc.InSegs, sc.Outbound, sc.OutBy, sc.Users, sc.Server, sc.Handler, sc.GateLate,
-		strings.Join(sc.Causes, "+"), sc.Reconnect, sc.Welcome, sc.Second, sc.Procs, sc.NoJoin, sc.FloodOn)
+		strings.Join(sc.Causes, "+"), sc.Reconnect, sc.Welcome, sc.Second, sc.Procs, sc.NoJoin, sc.FloodOn, sc.ConnectTo)
 }
 
 // lifeFinding is a judged observation tagged with the property it refutes.
@@ -115,11 +116,20 @@ func runLife(c *Ctx, sc lifeSc, seedLabel ...interface{}) (out lifeOutcome) {
 		lg.Add(rig.Event{Kind: "CONNECT-CALL", S: where})
 		var err error
 		var cf context.CancelFunc
-		if sc.UseCtx {
+		switch {
+		case sc.UseCtx && sc.ConnectTo:
+			var cx context.Context
+			cx, cf = context.WithCancel(context.Background())
+			err = conn.ConnectToContext(cx, "irc.test", sc.Pass)
+		case sc.UseCtx:
 			var cx context.Context
 			cx, cf = context.WithCancel(context.Background())
 			err = conn.ConnectContext(cx)
-		} else {
+		case sc.ConnectTo && sc.Pass != "":
+			err = conn.ConnectTo("irc.test", sc.Pass)
+		case sc.ConnectTo:
+			err = conn.ConnectTo("irc.test")
+		default:
 			err = conn.Connect()
 		}
 		e := ""
